@@ -163,40 +163,48 @@ def run_format(res, tier, shard):
     for ci, c in enumerate(combos):
         for di, (label, text) in enumerate(docs):
             if tier == "thorough" or di == (ci % len(docs)) or (ci % 20 == 0):
-                cases.append((c, label, text))
+                cases.append((c, label, text, "out.map"))
+        if ci % 8 == 0 or tier == "thorough":
+            # formatting in place (OUT is IN), and OUT being a file that IN includes
+            cases.append((c, docs[ci % 3][0], docs[ci % 3][1], "in.map"))
+            cases.append((c, "include doc", docs[3][1], "part.map"))
     tmp = tempfile.mkdtemp(prefix="mcf_c20f_")
     try:
         with open(os.path.join(tmp, "part.map"), "w", encoding="utf-8") as f:
             f.write('  SHAPEPATH "from include"\n')
-        for k, (c, label, text) in enumerate(cases):
+        for k, (c, label, text, outname) in enumerate(cases):
             if k % 16 != shard:
                 continue
             src = os.path.join(tmp, "in.map")
             with open(src, "w", encoding="utf-8", newline="") as f:
                 f.write(text)
-            args = ["format", "in.map", "out.map", "--indent=%d" % c["indent"], "--spacer=%s" % c["spacer"], "--quote=%s" % c["quote"],
-                    "--newlinechar=%s" % c["newlinechar"], "--expand" if c["expand"] else "--no-expand", "--comments" if c["comments"] else "--no-comments"]
-            for fn in ("out.map", "want.map"):
-                if os.path.exists(os.path.join(tmp, fn)):
-                    os.remove(os.path.join(tmp, fn))
-            rc, out, err = run_cli(args, tmp)
-            res["evals"] += 1
-            cwd = os.getcwd()
+            with open(os.path.join(tmp, "part.map"), "w", encoding="utf-8") as f:
+                f.write('  SHAPEPATH "from include"\n')
+            # the expectation is computed first, on the untouched input
+            import codecs as _codecs
+
+            cwd0 = os.getcwd()
             os.chdir(tmp)
             try:
                 try:
-                    d = mappyfile.open("in.map", expand_includes=c["expand"], include_comments=c["comments"], include_position=True)
-                    mappyfile.save(d, "want.map", indent=c["indent"], spacer=codecs.decode(c["spacer"], "unicode_escape"), quote=c["quote"],
-                                   newlinechar=codecs.decode(c["newlinechar"], "unicode_escape"))
+                    d0 = mappyfile.open("in.map", expand_includes=c["expand"], include_comments=c["comments"], include_position=True)
+                    mappyfile.save(d0, "want.map", indent=c["indent"], spacer=_codecs.decode(c["spacer"], "unicode_escape"), quote=c["quote"],
+                                   newlinechar=_codecs.decode(c["newlinechar"], "unicode_escape"))
                     with open("want.map", "rb") as f:
                         want = f.read()
                 except Exception as e:
                     want = "API raises " + type(e).__name__
             finally:
-                os.chdir(cwd)
-            got = None
+                os.chdir(cwd0)
+            args = ["format", "in.map", outname, "--indent=%d" % c["indent"], "--spacer=%s" % c["spacer"], "--quote=%s" % c["quote"],
+                    "--newlinechar=%s" % c["newlinechar"], "--expand" if c["expand"] else "--no-expand", "--comments" if c["comments"] else "--no-comments"]
             if os.path.exists(os.path.join(tmp, "out.map")):
-                with open(os.path.join(tmp, "out.map"), "rb") as f:
+                os.remove(os.path.join(tmp, "out.map"))
+            rc, out, err = run_cli(args, tmp)
+            res["evals"] += 1
+            got = None
+            if os.path.exists(os.path.join(tmp, outname)):
+                with open(os.path.join(tmp, outname), "rb") as f:
                     got = f.read()
             if isinstance(want, bytes) and rc == 0 and got == want:
                 R.add_outcome(res, "format_equals_save_open")
@@ -205,7 +213,7 @@ def run_format(res, tier, shard):
                 R.add_outcome(res, "both_fail")
             else:
                 R.add_outcome(res, "format_differs")
-                R.add_violation(res, "format|%s|%s" % (label, " ".join(args[3:])), "mappyfile format writes something else than save(open(IN), ...): exit %d, %s" % (
+                R.add_violation(res, "format|%s%s|%s" % (label, "" if outname == "out.map" else " -> " + outname, " ".join(args[3:])), "mappyfile format writes something else than save(open(IN), ...): exit %d, %s" % (
                     rc, "no output file" if got is None else "bytes differ"), {"args": args, "text": text}, {"stderr": err[-300:]})
     finally:
         shutil.rmtree(tmp, ignore_errors=True)
